@@ -1,0 +1,3 @@
+// Package veriftrace is the event sink of the verification hooks. It is empty unless the
+// program is built with the build tag "verif".
+package veriftrace
